@@ -1280,6 +1280,11 @@ impl GraphDatabase {
                 }
             };
 
+            if !crate::date_utils::is_valid_date(node.mdate) || !crate::date_utils::is_valid_date(node.cdate) {
+                invalid_nodes.push(node_to_insert.id);
+                continue;
+            }
+
             match &node.room_id {
                 Some(r) => {
                     if !room_id.eq(r) {
